@@ -394,13 +394,15 @@ public:
   {
     // The number of steps is |to - from| / by rounded down; 1e-9 step absorbs the rounding of the
     // quotient (0.3 / 0.1 = 2.9999999999999996) without ever stepping beyond 'to'.
-    std::vector<T> v((size_t)(static_cast<double>(std::abs(from - to)) / static_cast<double>(by) + 1e-9) + 1);
+    // (The difference is taken in double: 'from - to' may not fit the type, e.g. for ints of opposite signs near the limits.)
+    std::vector<T> v((size_t)(std::abs(static_cast<double>(from) - static_cast<double>(to)) / static_cast<double>(by) + 1e-9) + 1);
     T step = from < to ? by : -by;
     T val(from);
-    for (auto& vi:v)
+    for (size_t i = 0; i < v.size(); ++i)
     {
-      vi = val;
-      val += step;
+      v[i] = val;
+      if (i + 1 < v.size())
+        val += step; // not after the last element: the next value may not fit the type
     }
 
     return v;
